@@ -81,8 +81,19 @@ def table(out):
     return tab
 
 
+def side_conditions(out):
+    """observed, not modelled: the wrapper must not modify its input; get_distances' radii-corrected
+    matrix is dist - (r_i + r_j) bit-exactly"""
+    bad = []
+    if out.get("input_unchanged") is False:
+        bad.append("get_displacement_tensor modified its positions argument")
+    if out.get("radii_ok") is False:
+        bad.append("get_distances: dist_matrix_radii_mic != dist_matrix_mic - (r_i + r_j)")
+    return bad
+
+
 def coq_term(c, out):
-    if "error" in out:
+    if "error" in out or side_conditions(out):
         return "false"
     tab = table(out)
     rows = []
@@ -117,6 +128,8 @@ def predicate_failures(c, out):
         return None
     if "error" in out:
         return ["implementation raised " + out["error"]]
+    if side_conditions(out):
+        return side_conditions(out)
     tab = table(out)
     n = len(pos)
     R2 = X.longest2(cell, pbc) if cutoff is None else cutoff * cutoff
